@@ -1,15 +1,200 @@
 package main
 
-// Ghost views over the store (sums over unbounded maps, DESIGN.md 3.5). Filled in by ghost_sums.go hooks.
+import (
+	"fmt"
+	"go/types"
+	"strings"
+)
+
+type typesType = types.Type
+
+// Ghost views over the store (sums over unbounded maps, DESIGN.md 3.5).
+//
+//   UT(d)     = sum over all unbonding buckets (family 8) and their entries e with e.denom = d of e.amount
+//   UTA(a,d)  = the same restricted to entries whose delegator address is a
+//
+// Both are state components maintained by the generator: a store write S[k] := v emits
+//   UT'(d) = UT(d) - bs(S[k], d) + bs(v, d)      (and the analogue for UTA)
+// where bs(bytes, d) is the sum over the entries of the decoded bucket (0 for nil bytes / other families).
+// The only other built-in fact is the member bound (every present bucket is a summand of a sum of
+// non-negative terms), emitted when a bucket is read.  Sums over entry lists are the uninterpreted
+// function bsum(n, denoms, amounts, d) with step / prefix-frame / sign lemmas (proved by induction on n on
+// paper; they are the two library lemmas `sum_append`, `sum_frame` of DESIGN.md plus sign).
 
 var ghostFuns = map[string]func(ev *Evaluator, args []*Term) Val{}
-var ghostSorts = map[string]Sort{"pend": ArrSort(SBytes, ArrSort(SStr, SInt)), "stk": SInt}
+var ghostSorts = map[string]Sort{
+	"pend": ArrSort(SBytes, ArrSort(SStr, SInt)), "stk": SInt,
+	"UT": ArrSort(SStr, SInt), "UTA": ArrSort(SBytes, ArrSort(SStr, SInt)),
+}
+
+const (
+	sArrIS = "(Array Int Str)"
+	sArrII = "(Array Int Int)"
+)
+
+func (E *Engine) declSums() {
+	D := E.D
+	if _, done := D.seen["bsum"]; done {
+		return
+	}
+	E.Assume("A-SUMS", "ghost sums UT/UTA over the unbonding buckets are maintained by the write rule sum' = sum - f(old cell) + f(new cell) and the member bound sum >= f(cell) for non-negative summands; list sums use the lemmas sum_step, sum_prefix_frame, sum_sign (induction on the list length, not machine-checked)")
+	D.Fun("bsum", []Sort{SInt, sArrIS, sArrII, SStr}, SInt)
+	D.Fun("bsumA", []Sort{SInt, sArrIS, sArrIS, sArrII, SBytes, SStr}, SInt)
+	// step
+	D.Axiom("(forall ((D (Array Int Str)) (A (Array Int Int)) (d Str)) (! (= (bsum 0 D A d) 0) :pattern ((bsum 0 D A d))))")
+	D.Axiom("(forall ((n Int) (D (Array Int Str)) (A (Array Int Int)) (d Str)) (! (=> (>= n 0) (= (bsum (+ n 1) D A d) (+ (bsum n D A d) (ite (= (select D n) d) (select A n) 0)))) :pattern ((bsum (+ n 1) D A d))))")
+	D.Axiom("(forall ((n Int) (D (Array Int Str)) (A (Array Int Int)) (d Str)) (! (=> (>= n 0) (= (bsum (+ 1 n) D A d) (+ (bsum n D A d) (ite (= (select D n) d) (select A n) 0)))) :pattern ((bsum (+ 1 n) D A d))))")
+	// prefix frame with a witness for the first difference
+	D.Fun("bsum_diff", []Sort{SInt, sArrIS, sArrII, sArrIS, sArrII}, SInt)
+	D.Axiom("(forall ((n Int) (D (Array Int Str)) (A (Array Int Int)) (D2 (Array Int Str)) (A2 (Array Int Int)) (d Str)) (! (=> (not (= (bsum n D A d) (bsum n D2 A2 d))) (let ((w (bsum_diff n D A D2 A2))) (and (<= 0 w) (< w n) (or (not (= (select D w) (select D2 w))) (not (= (select A w) (select A2 w))))))) :pattern ((bsum n D A d) (bsum n D2 A2 d))))")
+	// sign
+	D.Fun("bsum_neg", []Sort{SInt, sArrIS, sArrII, SStr}, SInt)
+	D.Axiom("(forall ((n Int) (D (Array Int Str)) (A (Array Int Int)) (d Str)) (! (=> (< (bsum n D A d) 0) (let ((w (bsum_neg n D A d))) (and (<= 0 w) (< w n) (< (select A w) 0)))) :pattern ((bsum n D A d))))")
+	// monotone in the length for non-negative amounts (witness for a negative amount otherwise)
+	D.Fun("bsum_mono", []Sort{SInt, SInt, sArrIS, sArrII, SStr}, SInt)
+	D.Axiom("(forall ((n Int) (k Int) (D (Array Int Str)) (A (Array Int Int)) (d Str)) (! (=> (and (<= n k) (> (bsum n D A d) (bsum k D A d))) (let ((w (bsum_mono n k D A d))) (and (<= n w) (< w k) (< (select A w) 0)))) :pattern ((bsum n D A d) (bsum k D A d))))")
+	// element bound: a prefix plus the next element never exceeds a longer prefix (non-negative amounts)
+	D.Fun("bsum_el", []Sort{SInt, SInt, sArrIS, sArrII, SStr}, SInt)
+	D.Axiom("(forall ((n Int) (k Int) (D (Array Int Str)) (A (Array Int Int)) (d Str)) (! (=> (and (<= 0 n) (< n k) (> (+ (bsum n D A d) (ite (= (select D n) d) (select A n) 0)) (bsum k D A d))) (let ((w (bsum_el n k D A d))) (and (< n w) (< w k) (< (select A w) 0)))) :pattern ((bsum n D A d) (bsum k D A d))))")
+	// per-account variant: entries whose delegator string is acc_str(a)
+	D.Axiom("(forall ((D (Array Int Str)) (G (Array Int Str)) (A (Array Int Int)) (a Bytes) (d Str)) (! (= (bsumA 0 D G A a d) 0) :pattern ((bsumA 0 D G A a d))))")
+	D.Axiom("(forall ((n Int) (D (Array Int Str)) (G (Array Int Str)) (A (Array Int Int)) (a Bytes) (d Str)) (! (=> (>= n 0) (= (bsumA (+ n 1) D G A a d) (+ (bsumA n D G A a d) (ite (and (= (select D n) d) (= (select G n) (acc_str a))) (select A n) 0)))) :pattern ((bsumA (+ n 1) D G A a d))))")
+	D.Axiom("(forall ((n Int) (D (Array Int Str)) (G (Array Int Str)) (A (Array Int Int)) (a Bytes) (d Str)) (! (=> (>= n 0) (= (bsumA (+ 1 n) D G A a d) (+ (bsumA n D G A a d) (ite (and (= (select D n) d) (= (select G n) (acc_str a))) (select A n) 0)))) :pattern ((bsumA (+ 1 n) D G A a d))))")
+	D.Fun("bsumA_diff", []Sort{SInt, sArrIS, sArrIS, sArrII, sArrIS, sArrIS, sArrII}, SInt)
+	D.Axiom("(forall ((n Int) (D (Array Int Str)) (G (Array Int Str)) (A (Array Int Int)) (D2 (Array Int Str)) (G2 (Array Int Str)) (A2 (Array Int Int)) (a Bytes) (d Str)) (! (=> (not (= (bsumA n D G A a d) (bsumA n D2 G2 A2 a d))) (let ((w (bsumA_diff n D G A D2 G2 A2))) (and (<= 0 w) (< w n) (or (not (= (select D w) (select D2 w))) (not (= (select G w) (select G2 w))) (not (= (select A w) (select A2 w))))))) :pattern ((bsumA n D G A a d) (bsumA n D2 G2 A2 a d))))")
+	// bucket-level sums over encoded bytes
+	D.Fun("bs", []Sort{SBytes, SStr}, SInt)
+	D.Fun("bsA", []Sort{SBytes, SBytes, SStr}, SInt)
+}
+
+// bucket leaf projections (QueuedUndelegation: #len, DelegatorAddress[], ValidatorAddress[], Balance.Denom[], Balance.Amount[])
+func (E *Engine) bucketLeaves(m *Machine, b *Term) (n, deleg, val, den, amt *Term) {
+	t := E.namedModuleType("QueuedUndelegation")
+	_, unm, _ := E.declCodec(t)
+	ls := leavesOf(t)
+	get := func(suffix string) *Term {
+		for i, l := range ls {
+			if strings.HasSuffix(l.Path, suffix) {
+				return App(l.Sort, unm[i], b)
+			}
+		}
+		panic("bucket leaf " + suffix)
+	}
+	return get("#len"), get("DelegatorAddress"), get("ValidatorAddress"), get("Balance.Denom"), get("Balance.Amount")
+}
+
+func (E *Engine) declBucketSums(m *Machine) {
+	E.declSums()
+	if E.bsDone {
+		return
+	}
+	E.bsDone = true
+	models[pkgSdk+".AccAddressFromBech32"](m, nil, nil, []Val{E.D.StrLit("")})
+	b := T(SBytes, "b")
+	n, deleg, _, den, amt := E.bucketLeaves(m, b)
+	E.D.Axiom("(forall ((d Str)) (! (= (bs bnil d) 0) :pattern ((bs bnil d))))")
+	E.D.Axiom("(forall ((a Bytes) (d Str)) (! (= (bsA bnil a d) 0) :pattern ((bsA bnil a d))))")
+	E.D.Axiom(fmt.Sprintf("(forall ((b Bytes) (d Str)) (! (=> (not (= b bnil)) (= (bs b d) (bsum %s %s %s d))) :pattern ((bs b d))))", n.S, den.S, amt.S))
+	E.D.Axiom(fmt.Sprintf("(forall ((b Bytes) (a Bytes) (d Str)) (! (=> (not (= b bnil)) (= (bsA b a d) (bsumA %s %s %s %s a d))) :pattern ((bsA b a d))))", n.S, den.S, deleg.S, amt.S))
+}
+
+func (E *Engine) namedModuleType(name string) typesType {
+	sp := E.P.SSA[modPath+"/x/alliance/types"]
+	if sp == nil || sp.Type(name) == nil {
+		panic(unsupported("type " + name + " not found"))
+	}
+	return sp.Type(name).Type()
+}
+
+// keyFamilyOf: syntactic family of a key term (0 = unknown).
+func keyFamilyOf(k *Term) int {
+	for _, kc := range keyFamilies {
+		if kc.Tag != 0 && strings.HasPrefix(k.S, "("+kc.Cons+" ") {
+			return kc.Tag
+		}
+	}
+	switch k.S {
+	case "g_ParamsKey":
+		return tagParams
+	case "g_AssetRebalanceQueueKey":
+		return tagFlag
+	}
+	return 0
+}
 
 // ghostOnWrite is called on every write S[k] := v with the store before the write.
 func (m *Machine) ghostOnWrite(old *Term, k, v *Term) {
-	for _, h := range ghostHooks {
-		h(m, old, k, v)
+	if !m.E.SumsOn {
+		return
 	}
+	fam := keyFamilyOf(k)
+	if fam != 0 && fam != 8 {
+		return
+	}
+	E := m.E
+	E.declBucketSums(m)
+	ut := m.GetG("UT", ghostSorts["UT"])
+	uta := m.GetG("UTA", ghostSorts["UTA"])
+	nut := E.D.Fresh("UT", ghostSorts["UT"])
+	nuta := E.D.Fresh("UTA", ghostSorts["UTA"])
+	oldv := Select(old, k)
+	guard := "true"
+	if fam == 0 {
+		guard = fmt.Sprintf("(= (ktag %s) 8)", k.S)
+	}
+	m.AssumeT(T(SBool, fmt.Sprintf("(forall ((d Str)) (! (= (select %s d) (ite %s (+ (- (select %s d) (bs %s d)) (bs %s d)) (select %s d))) :pattern ((select %s d))))",
+		nut.S, guard, ut.S, oldv.S, v.S, ut.S, nut.S)))
+	m.AssumeT(T(SBool, fmt.Sprintf("(forall ((a Bytes) (d Str)) (! (= (select (select %s a) d) (ite %s (+ (- (select (select %s a) d) (bsA %s a d)) (bsA %s a d)) (select (select %s a) d))) :pattern ((select (select %s a) d))))",
+		nuta.S, guard, uta.S, oldv.S, v.S, uta.S, nuta.S)))
+	m.SetG("UT", nut)
+	m.SetG("UTA", nuta)
 }
 
-var ghostHooks []func(m *Machine, old *Term, k, v *Term)
+// ghostOnRead: member bound for a bucket that is read (requires non-negative entry amounts, part of WF).
+func (m *Machine) ghostOnRead(k *Term) {
+	if !m.E.SumsOn {
+		return
+	}
+	fam := keyFamilyOf(k)
+	if fam != 0 && fam != 8 {
+		return
+	}
+	E := m.E
+	E.declBucketSums(m)
+	ut := m.GetG("UT", ghostSorts["UT"])
+	uta := m.GetG("UTA", ghostSorts["UTA"])
+	cell := Select(m.S(), k)
+	guard := "true"
+	if fam == 0 {
+		guard = fmt.Sprintf("(= (ktag %s) 8)", k.S)
+	}
+	m.AssumeT(T(SBool, fmt.Sprintf("(forall ((d Str)) (! (=> %s (>= (select %s d) (bs %s d))) :pattern ((bs %s d))))", guard, ut.S, cell.S, cell.S)))
+	m.AssumeT(T(SBool, fmt.Sprintf("(forall ((a Bytes) (d Str)) (! (=> %s (>= (select (select %s a) d) (bsA %s a d))) :pattern ((bsA %s a d))))", guard, uta.S, cell.S, cell.S)))
+}
+
+func init() {
+	ghostFuns["UT"] = func(ev *Evaluator, a []*Term) Val {
+		ev.E.declBucketSums(ev.M)
+		return Select(ev.M.GetG("UT", ghostSorts["UT"]), a[0])
+	}
+	ghostFuns["UTA"] = func(ev *Evaluator, a []*Term) Val {
+		ev.E.declBucketSums(ev.M)
+		return Select(Select(ev.M.GetG("UTA", ghostSorts["UTA"]), a[0]), a[1])
+	}
+	ghostFuns["bs"] = func(ev *Evaluator, a []*Term) Val {
+		ev.E.declBucketSums(ev.M)
+		return App(SInt, "bs", a...)
+	}
+	ghostFuns["bsA"] = func(ev *Evaluator, a []*Term) Val {
+		ev.E.declBucketSums(ev.M)
+		return App(SInt, "bsA", a...)
+	}
+	ghostFuns["bsum"] = func(ev *Evaluator, a []*Term) Val {
+		ev.E.declBucketSums(ev.M)
+		return App(SInt, "bsum", a...)
+	}
+	ghostFuns["bsumA"] = func(ev *Evaluator, a []*Term) Val {
+		ev.E.declBucketSums(ev.M)
+		return App(SInt, "bsumA", a...)
+	}
+}
